@@ -2,10 +2,10 @@
 (***************************************************************************)
 (* The grammar of the timeline! macro (macros/src/fn_timeline.rs) and its   *)
 (* documented reading.  A sentence is a sequence of arguments:              *)
-(*  [k |-> "dur", ms, form]   N{s|ms}, optionally after `for`               *)
-(*       form: "s" (seconds literal, int or float), "ms", "ms_" (underscored *)
-(*             literal), "for_s", "for_ms"                                  *)
-(*  [k |-> "del", ms, form]   after N{s|ms}                                 *)
+(*  [k |-> "dur", tk, form]   N{s|ms}, optionally after `for`               *)
+(*       form: "s" (seconds literal, int or float), "ms" (int or float),    *)
+(*             "ms_" (underscored integer literal), "for_s", "for_ms"       *)
+(*  [k |-> "del", tk, form]   after N{s|ms}                                 *)
 (*  [k |-> "rep", n]          Nx   (n >= 1),  n = -2: infinite              *)
 (*  [k |-> "rev"]             reverse                                       *)
 (*  [k |-> "ease", e]         a path naming an easing                       *)
@@ -14,7 +14,8 @@
 (* Reading: arguments may come in any order; a later duration / delay /     *)
 (* repeat / easing replaces an earlier one; keyframes accumulate in order;  *)
 (* defaults are those of the builder (1 s, no delay, no repeat, Linear).    *)
-(* Times are in milliseconds (1 tick = 1 ms), positions in 1/200.           *)
+(* Times are in ticks of half a millisecond (TPM ticks per ms, so that      *)
+(* fractional literals like 24.5ms are sentences too), positions in 1/200.  *)
 (***************************************************************************)
 EXTENDS Integers, Sequences, FiniteSets, TLC
 
@@ -23,11 +24,12 @@ NP == 4
 Kind == <<"f", "f", "i", "i">>
 INSTANCE Timeline
 
-Blank == [kfs |-> <<>>, de |-> 1, tm |-> [cyc |-> 1000, del |-> 0, rep |-> -1, rev |-> FALSE]]
+TPM == 2       \* ticks per millisecond
+Blank == [kfs |-> <<>>, de |-> 1, tm |-> [cyc |-> 1000 * TPM, del |-> 0, rep |-> -1, rev |-> FALSE]]
 
 Apply1(cfg, a) ==
-  CASE a.k = "dur"  -> [cfg EXCEPT !.tm.cyc = a.ms]
-    [] a.k = "del"  -> [cfg EXCEPT !.tm.del = a.ms]
+  CASE a.k = "dur"  -> [cfg EXCEPT !.tm.cyc = a.tk]
+    [] a.k = "del"  -> [cfg EXCEPT !.tm.del = a.tk]
     [] a.k = "rep"  -> [cfg EXCEPT !.tm.rep = a.n]
     [] a.k = "rev"  -> [cfg EXCEPT !.tm.rev = TRUE]
     [] a.k = "ease" -> [cfg EXCEPT !.de = a.e]
@@ -48,8 +50,8 @@ KindsOrdered(s, t) ==
 
 \* well-formedness of the literal forms
 WellFormed(a) ==
-  CASE a.k = "dur" -> a.ms >= 1 /\ (a.form \in {"s", "for_s", "ms", "ms_", "for_ms"})
-    [] a.k = "del" -> a.ms >= 0
+  CASE a.k = "dur" -> a.tk >= 1 /\ (a.form \in {"s", "for_s", "ms", "ms_", "for_ms"}) /\ (a.form = "ms_" => a.tk % TPM = 0)
+    [] a.k = "del" -> a.tk >= 0
     [] a.k = "rep" -> a.n >= 1 \/ a.n = -2
     [] a.k = "kf"  -> a.pos \in 0..PD /\ (a.form = "from" => a.pos = 0) /\ (a.form = "to" => a.pos = PD)
     [] OTHER -> TRUE
